@@ -130,12 +130,12 @@ Fixpoint plain_go (f : nat) (acc : list chr) (lb : bool) (tb : N) (ws : list chr
   | S f =>
     look str_ops 4 ;;;
     s <- get ;;
-    di <- (if sc_lws s then next_is_document_indicator str_ops else ret false) ;;
+    di <- (if sc_lws s && (m_col (sc_mark s) =? 0) then next_is_document_indicator str_ops else ret false) ;;
     c <- SPrim.peek str_ops ;;
     if di || (c =? 35) then ret (acc, endm) else
     nc <- peekn str_ops 1 ;;
     let fl := 0 <? sc_flow_level s in
-    if fl && (c =? 45) && is_flow nc then fail 76 (sc_mark s) else
+    if (match acc with [] => true | _ => false end) && fl && (c =? 45) && is_flow nc then fail 76 (sc_mark s) else
     cb <- (if is_blank_or_breakz c then ret false else next_can_be_plain_scalar str_ops fl) ;;
     r <- (if cb then
             let '(acc, lb, tb, ws) :=
@@ -190,7 +190,7 @@ Proof using no_nul.
   apply swp_bind. apply (pwp_look orig no_nul 4 pre); [exact HM|]. intros s1 M1 R1 I1.
   apply swp_bind. apply swp_get. apply swp_bind.
   match goal with |- swp _ _ ?Q _ => assert (HQ : forall di, Q di s1) end.
-  2:{ destruct (sc_lws s1); [apply swp_next_is_document_indicator; exact HQ|apply swp_ret; exact (HQ false)]. }
+  2:{ destruct (sc_lws s1 && (m_col (sc_mark s1) =? 0)%N); [apply swp_next_is_document_indicator; exact HQ|apply swp_ret; exact (HQ false)]. }
   intros di. cbv beta.
   apply swp_bind. apply swp_peek.
   match goal with |- swp _ (if ?b then _ else _) _ _ => destruct b end.
